@@ -322,7 +322,8 @@ def crash_one_save(ctx, hi, hist, j, base):
     if ctx.tier == 'quick' and hist['backend'] == 'orbax' and len(points) > 8 and hi % 2:
       points = points[::2] + [points[-1]]
     step, keep, keep_every, overwrite = hist['ops'][j]
-    later = max(list(present_before) + [step]) + 1
+    top = max(list(present_before) + [step])
+    later = top + 1 if top + 1 != top else top * 2  # float steps like 1e22 absorb +1
     for k, torn in points:
       desc = dict(history=hi, backend=hist['backend'], io=hist['io'], variant=hist['variant'], crash_before_op=k,
                   op=cnt['log'][k - 1][:2], torn=None if torn is None else torn[1], last_save=list(hist['ops'][j]))
